@@ -1035,7 +1035,9 @@ class tzrange(tzrangebase):
         # or an end time earlier than the saving once expressed in standard
         # time) would pick the weekday from a neighbouring day, or even
         # year: resolve the date first, then add the time.
-        time_part = relativedelta.relativedelta(
+        # (type(delta), not the lazily imported module: an unpickled zone
+        # may be queried before any tzrange was constructed in this process)
+        time_part = type(delta)(
             days=delta.days, hours=delta.hours, minutes=delta.minutes,
             seconds=delta.seconds, microseconds=delta.microseconds)
 
